@@ -57,7 +57,7 @@ def fam(origin):
              "float": ["0", "1", "1.0", "0.5", "Decimal('1')", "-0.0", "True"],
              "Decimal": ["Decimal('1')", "1", "1.0", "Decimal('1.0')", "Decimal('0')"]}[origin]
         f["const"] = [("const", x) for x in c]
-        e = {"int": ["[1, 2, 3]", "[0]", "(1, 7)", "{1.0, 5}"], "float": ["[float('inf'), float('-inf')]", "[0.5, 1]"],
+        e = {"int": ["[1, 2, 3]", "[0]", "(1, 7)", "{1.0, 5}", "Num", "Perm"], "float": ["[float('inf'), float('-inf')]", "[0.5, 1]"],
              "Decimal": ["[Decimal('1'), Decimal('2.50')]"]}[origin]
         f["enum"] = [("enum", x) for x in e]
     elif origin in ("str", "bytes"):
@@ -67,7 +67,7 @@ def fam(origin):
         if origin == "str":
             f["regex"] = [("regex", r) for r in ("'a+'", "'[0-9]{2}'", "'a|ab'", "'(a|b)*'", "''", "'a'", "'.'", "'^a$'")]
             f["const"] = [("const", x) for x in ("'a'", "'ab'", "''", "'1'", "MyStr('a')", "Color.RED")]
-            f["enum"] = [("enum", x) for x in ("['a', 'b']", "['', '1']", "('ab',)")]
+            f["enum"] = [("enum", x) for x in ("['a', 'b']", "['', '1']", "('ab',)", "Color", "Tricky")]
         else:
             f["const"] = [("const", "b'a'")]
     elif origin in ("list", "tuple"):
@@ -75,6 +75,8 @@ def fam(origin):
         f["min_length"] = [("min_length", str(i)) for i in (1, 2, 3)]
         f["max_length"] = [("max_length", str(i)) for i in (1, 2, 3)]
         f["unique_items"] = [("unique_items", "True")]
+        if origin == "list":
+            f["enum"] = [("enum", "ListE"), ("enum", "[[0], [1, 2]]")]
         f["contains"] = [("contains", c) for c in ("int", "RC(int, const=1)", "str", "RC(None, const=1)")]
         f["min_contains"] = [("min_contains", "1"), ("min_contains", "2")]
         f["max_contains"] = [("max_contains", "1"), ("max_contains", "2")]
@@ -207,14 +209,14 @@ def windows(origin, cons):
 
 def bounds(tier):
     ar = 3 if tier == "thorough" else 2
-    return dict(origins=ORIGINS, constraint_sets={o: len(constraint_sets(o, ar if o in ("int", "float", "Decimal", "str") or ar < 3 else 2))
+    return dict(origins=ORIGINS, constraint_sets={o: len(constraint_sets(o, ar))
                                                   for o in ORIGINS},
                 arity=ar)
 
 
 def _arity(origin, tier):
     if tier == "thorough":
-        return 3 if origin in ("int", "str", "list", "tuple") else 2
+        return 3
     return 2
 
 
@@ -231,6 +233,16 @@ def shards(tier):
         for i in range(0, n, ch):
             out.append((o, i, min(i + ch, n)))
     return out
+
+
+def _enum_class(cons):
+    import enum as _enum
+    for c, b in cons:
+        if c == "enum":
+            bv = ev(b)
+            if isinstance(bv, _enum.EnumMeta):
+                return bv
+    return None
 
 
 def decl_expr(origin, cons):
@@ -351,6 +363,10 @@ def run_shard(shard, tier):
                                   f"{'do not hold' if got else 'hold'}",
                               script(origin, cons, vx, exp, f"ok != {exp!r}"),
                               dict(decl=dx, value=vx, expected=exp, got=got))
+            elif got and _enum_class(cons) is not None and same(payload, _enum_class(cons)(v).value):
+                # an Enum class as the enum constraint yields EnumClass(value).value (documented in the code); for a Flag
+                # that is the canonical value of the member (Perm(-8) is Perm(0))
+                acc.extra["enum_class_canonical_value"] += 1
             elif got and not same(payload, v):
                 fp = f"C02|{origin}|{names}|altered|{vshape}"
                 acc.violation(fp, f"{dx}({vx}) returned {short(payload)} ({type(payload).__name__}), not the input",
